@@ -52,6 +52,24 @@ def writer_literals(prog, cg):
                     lits.append(l.d.get("s", ""))
         out[fm[0]] = (W, lits)
     if set(out) != set(FORMATS):
+        from ..util import switch_table
+        for sw in K.body.find("SwitchStmt"):
+            for labels, stmts in switch_table(sw):
+                fm = [lab[2] for lab in labels if lab[0] == "case" and lab[2] in FORMATS]
+                calls = [x.callee for st in stmts for x in st.calls() if x.callee and x.callee.startswith("write_msa")]
+                if len(fm) == 1 and len(calls) == 1:
+                    W = calls[0]
+                    lits = []
+                    for fn in sorted(cg.reachable({W})):
+                        G = cg.defined.get(fn)
+                        if G is None:
+                            continue
+                        for l in G.body.find("StringLiteral"):
+                            p_, ch = l.up(casts=True)
+                            if p_ is not None and p_.k == "CallExpr" and p_.callee in ("fprintf", "snprintf", "sprintf", "printf", "fputs"):
+                                lits.append(l.d.get("s", ""))
+                    out[fm[0]] = (W, lits)
+    if set(out) != set(FORMATS):
         raise AnalysisBroken("R06a slot: writers per format not resolved in kalign_write_msa (%s)" % sorted(out))
     return out
 
